@@ -468,6 +468,8 @@ def model_line(case, ran=None):
     kindname = case["kind"]
     if kindname == "alias":
         return None
+    if kindname == "lazy" and case["front"] == "apply_":
+        return None
     if kindname == "lazy":
         has_out_fwd = case["out"] is not None and case["front"] != "named_apply"
         if case["threads"] or (o["bs"] is not None and not has_out_fwd) or o["names"] != "absent":
@@ -721,11 +723,54 @@ def effective(case):
     return case
 
 
+def check_lazy_apply_(case):
+    """LazyStackedTensorDict.apply_ is a function of its own (each member's _fast_apply(inplace=True)): the members are
+    re-written in place and self is returned — oracle only"""
+    fails, cnt = [], {}
+    o = case["opts"]
+    real = run_real(case)
+    cnt["lazy.apply_"] = 1
+    cnt["outcome:" + (real["outcome"] if real["outcome"] == "ok" else real["exc"])] = 1
+    sig = {"call": "lazy.apply_", "container": "lazy", "propagate": o["propagate"]}
+    if REF.skeleton_hit(dict(case, self=case["members"][0], others=[ms[0] for ms in case["others_members"]])):
+        sig["skeleton_hit"] = True
+    gray = REF.gray_reasons(dict(case, self=case["members"][0], out=None))
+    per = []
+    for i, m in enumerate(case["members"]):
+        per.append(REF.reference(dict(case, kind="regular", self=m, others=[ms[i] for ms in case["others_members"]], out=None)))
+    if [g for g in gray if g in REF.HARD_GRAY] or any(r[0] == "gray" for r in per):
+        cnt["oracle:gray"] = 1
+    elif any(r[0] == "raise" for r in per):
+        errs = set().union(*[r[1] for r in per if r[0] == "raise"])
+        if real["outcome"] == "ok":
+            fails.append(("error:not-raised", case, {"expected": sorted(errs)}, dict(sig, kind="not-raised")))
+        elif real["exc"] not in errs:
+            fails.append(("error:other-class", case, {"expected": sorted(errs), "got": real["exc"], "msg": real.get("msg")}, dict(sig, kind="raise", exc=real["exc"])))
+    elif real["outcome"] != "ok":
+        fails.append(("raise:unexpected", case, {"exc": real["exc"], "msg": real.get("msg")}, dict(sig, kind="raise", exc=real["exc"])))
+    else:
+        got = real.get("ret_members")
+        if real["ret_is"] != "self" or got is None or len(got) != len(per):
+            fails.append(("result:object", case, {"returned": real["ret_is"]}, dict(sig, kind="object")))
+        else:
+            for i, (r, g) in enumerate(zip(per, got)):
+                exp = r[1] if r[1] is not None else REF.abstract_expected(case["members"][i])
+                d = cmp_expected(exp, g)
+                if d:
+                    fails.append(("result:" + d[1], case, {"member": i, "path": d[0], "got": d[2], "want": d[3]}, dict(sig, kind="result", what=d[1])))
+                    break
+    if real.get("after") and real["before"]["others"] != real["after"]["others"]:
+        fails.append(("frame:other-operand-modified", case, {}, dict(sig, kind="frame-others")))
+    return fails, [], cnt, real
+
+
 def check_case(case, mres):
     """one case: real run, oracle, correspondence.  Returns (oracle_failures, mismatches, counters, observation)."""
     fails, mism, cnt = [], [], {}
     o = case["opts"]
     kindname = case["kind"]
+    if kindname == "lazy" and case["front"] == "apply_":
+        return check_lazy_apply_(case)
 
     def count(k):
         cnt[k] = cnt.get(k, 0) + 1
@@ -1182,6 +1227,14 @@ def main(R):
             kindname = R.rng.choice(KIND_MIX)
             sc = R.rng.choice(scenes[kindname])
             cases.append(make_case(R.rng, pt, sc, kindname, R.rng.randrange(0, 1 << 16)))
+    # LazyStackedTensorDict.apply_ (a function of its own): a small sub-lattice
+    for (dflt, fe, con, prop) in itertools.product([False, True], FE, [False, True], [False, True]):
+        for _ in range(4 if R.quick else 30):
+            pt = (True, False, dflt, fe, con, "plain", False, "absent", "absent", prop, 0, "default")
+            c = make_case(R.rng, pt, R.rng.choice(scenes["lazy"]), "lazy", 0)
+            c["front"] = "apply_"
+            c["opts"]["checked"] = False
+            cases.append(c)
     R.extra["lattice_points"] = len(pts)
     R.extra["generate_s"] = round(time.time() - t00, 1)
     nproc = min(15, os.cpu_count() or 2)
